@@ -155,6 +155,59 @@ def metadata_doc (leading : Str) (trailing : Str) (detached : List Str) : Str :=
   else
   (([] : Str))))
 
+-- gapic/schema/imp.py — Import.__str__
+def import_str (self_alias : Str) (self_module : Str) (self_package : List Str) : Str :=
+  let answer : Str := ((['i', 'm', 'p', 'o', 'r', 't', ' '] : Str) ++ self_module)
+  if (truthy self_package) then
+  (let answer : Str := ((['f', 'r', 'o', 'm', ' '] : Str) ++ (join (['.'] : Str) self_package) ++ ([' '] : Str) ++ answer)
+  if (truthy self_alias) then
+  (let answer : Str := (answer ++ (([' ', 'a', 's', ' '] : Str) ++ self_alias))
+  if ((endswith self_module (['_', 'p', 'b', '2'] : Str)) || (strIn (['a', 'p', 'i', '_', 'c', 'o', 'r', 'e'] : Str) self_package)) then
+  (let answer : Str := (answer ++ ([' ', ' ', '#', ' ', 't', 'y', 'p', 'e', ':', ' ', 'i', 'g', 'n', 'o', 'r', 'e'] : Str))
+  answer)
+  else
+  (answer))
+  else
+  (if ((endswith self_module (['_', 'p', 'b', '2'] : Str)) || (strIn (['a', 'p', 'i', '_', 'c', 'o', 'r', 'e'] : Str) self_package)) then
+  (let answer : Str := (answer ++ ([' ', ' ', '#', ' ', 't', 'y', 'p', 'e', ':', ' ', 'i', 'g', 'n', 'o', 'r', 'e'] : Str))
+  answer)
+  else
+  (answer)))
+  else
+  (if (truthy self_alias) then
+  (let answer : Str := (answer ++ (([' ', 'a', 's', ' '] : Str) ++ self_alias))
+  if ((endswith self_module (['_', 'p', 'b', '2'] : Str)) || (strIn (['a', 'p', 'i', '_', 'c', 'o', 'r', 'e'] : Str) self_package)) then
+  (let answer : Str := (answer ++ ([' ', ' ', '#', ' ', 't', 'y', 'p', 'e', ':', ' ', 'i', 'g', 'n', 'o', 'r', 'e'] : Str))
+  answer)
+  else
+  (answer))
+  else
+  (if ((endswith self_module (['_', 'p', 'b', '2'] : Str)) || (strIn (['a', 'p', 'i', '_', 'c', 'o', 'r', 'e'] : Str) self_package)) then
+  (let answer : Str := (answer ++ ([' ', ' ', '#', ' ', 't', 'y', 'p', 'e', ':', ' ', 'i', 'g', 'n', 'o', 'r', 'e'] : Str))
+  answer)
+  else
+  (answer)))
+
+-- gapic/schema/wrappers.py — Service.shortname
+def service_shortname (self_host : Str) : Str :=
+  (head0 (split self_host ['.']))
+
+-- gapic/schema/naming.py — Naming.long_name
+def naming_long_name (self_namespace : List Str) (self_name : Str) : Str :=
+  (join ([' '] : Str) (self_namespace ++ ([self_name] : List Str)))
+
+-- gapic/schema/naming.py — Naming.module_namespace
+def naming_module_namespace (self_namespace : List Str) : List Str :=
+  ((self_namespace).map fun i_ => (to_valid_module_name i_))
+
+-- gapic/schema/naming.py — Naming.warehouse_package_name
+def naming_warehouse_package_name (self__warehouse_package_name : Str) (self_namespace : List Str) (self_name : Str) : Str :=
+  if (truthy self__warehouse_package_name) then
+  (self__warehouse_package_name)
+  else
+  (let answer : List Str := (self_namespace ++ (split self_name [' ']))
+  (lower (join (['-'] : Str) answer)))
+
 -- gapic/schema/metadata.py — Address.__str__
 def address_str (self_module : Str) (self_parent : List Str) (self_name : Str) (module_alias : Str) (is_proto_plus_type : Bool) : Str :=
   if (truthy self_module) then
@@ -178,12 +231,12 @@ def address_str (self_module : Str) (self_parent : List Str) (self_name : Str) (
 -- gapic/schema/metadata.py — Address.module_alias
 def address_module_alias (self_module : Str) (self_collisions : List Str) (self_package : List Str) (api_version : Str) : Str :=
   if ((strIn self_module self_collisions) || (strIn self_module (GapicModel.Pinned.reservedNames.map String.toList))) then
-  ((join (['_'] : Str) ([(join ([] : Str) ((self_package).flatMap fun i_ => (((((split i_ ['_'])).filter fun partial_name_ => (i_ != api_version))).map fun partial_name_ => (idxStr partial_name_ (0 : Int))))), self_module] : List Str)))
+  ((join (['_'] : Str) ([(join ([] : Str) ((self_package).flatMap fun i_ => (((((split i_ ['_'])).filter fun partial_name_ => ((i_ != api_version) && (truthy partial_name_)))).map fun partial_name_ => (idxStr partial_name_ (0 : Int))))), self_module] : List Str)))
   else
   (([] : Str))
 /-- true iff no index expression evaluated by `address_module_alias` on these arguments is out of range (Python raises IndexError otherwise) -/
 def address_module_alias_ok (self_module : Str) (self_collisions : List Str) (self_package : List Str) (api_version : Str) : Bool :=
-  (if ((strIn self_module self_collisions) || (strIn self_module (GapicModel.Pinned.reservedNames.map String.toList))) then ((self_package).all fun i_ => (((split i_ ['_'])).all fun partial_name_ => (!((i_ != api_version)) || (inRange (len partial_name_) (0 : Int))))) else true)
+  (if ((strIn self_module self_collisions) || (strIn self_module (GapicModel.Pinned.reservedNames.map String.toList))) then ((self_package).all fun i_ => (((split i_ ['_'])).all fun partial_name_ => (!(((i_ != api_version) && (truthy partial_name_))) || (inRange (len partial_name_) (0 : Int))))) else true)
 
 -- gapic/schema/metadata.py — Address.proto
 def address_proto (self_package : List Str) (self_parent : List Str) (self_name : Str) : Str :=
